@@ -13,6 +13,7 @@ import KafkaVerif.Model.ReaderFront
 import KafkaVerif.Gen.DecoderFacts
 import KafkaVerif.Lemmas.ReaderFront
 import KafkaVerif.Lemmas.ByteLayout
+import KafkaVerif.Lemmas.ReaderRun
 
 namespace KV.C02
 
@@ -297,6 +298,102 @@ theorem out_of_range_seeks (s : RL) (hwm first last : Int) (h : s.offset < first
 theorem out_of_range_counterexample :
     onAnswer .legacy { offset := 105, connOpen := true, connOff := 105 } 115 110 115 (.err 1)
       = .go { offset := 110, connOpen := true, connOff := 105 } := by rfl
+
+/-! ### the whole reconnect / backoff loop (Model/ReaderRun.lean: `rstep`, a total LTS)
+
+Events are the outcomes of the blocking calls of `(*reader).run`: the backoff sleeps (done / context cancelled),
+`initialize` (failed — dial, readOffsets, or Seek out of range — or succeeded with the partition's first/last offsets),
+and one `read`: a fetch round (`data`), a connection lost after a prefix of a response (`cutAfter`), a partition error of
+any code (with what the follow-up `readOffsets` says for OffsetOutOfRange), another I/O error, context.Canceled,
+errUnknownCodec.  `Good` restricts the environment only as far as §1–§2 prove it: a `data` event is a round as
+`fetch_round` describes it, a `cutAfter` event delivers an initial segment of the log from the conn offset
+(`single_fetch` on the bytes that arrived), and a reported first offset is not above a record that still exists. -/
+
+/-- `reader_loop_exactly_once`: for **every** event sequence — any interleaving of faults, retries, reconnects, backoff
+sleeps, leader changes (= failed reads followed by a new initialize), out-of-range resets — what the loop has pushed
+into `r.msgs` is strictly increasing (each record once, in order) and is exactly the stored records between the
+resolved start offset and the loop's `offset` (nothing missing, nothing else). -/
+theorem reader_loop_exactly_once (cfg : RCfg) (log : List Rec) (o0 : Int) (ho : -2 ≤ o0) (es : List REv)
+    (hg : GoodRun cfg log { offset := o0 } es) :
+    let s := rrun cfg { offset := o0 } es
+    s.msgs.Pairwise (fun a b => a.1 < b.1) ∧
+    (s.start = none → s.msgs = []) ∧
+    (∀ st, s.start = some st →
+      (∀ r ∈ s.msgs, r ∈ log ∧ st ≤ r.1 ∧ r.1 < s.offset) ∧ (∀ r ∈ log, st ≤ r.1 → r.1 < s.offset → r ∈ s.msgs)) := by
+  have h := rinv_run cfg log es _ (rinv_init log o0 ho) hg
+  exact ⟨h.sorted, fun h0 => (h.nostart h0).1, fun st hst => ⟨(h.bounds st hst).2.2.1, (h.bounds st hst).2.2.2⟩⟩
+
+/-- `restart_offset`, general form: whenever the loop holds a connection — after any history of faults — that
+connection is positioned (`connOff`) at or after `offset`, everything delivered lies below `offset`, every stored
+record from the start offset below it has been delivered, and no stored record lies between `offset` and the
+connection's position: the next fetch can neither repeat nor skip a record. -/
+theorem restart_offset_general (cfg : RCfg) (log : List Rec) (o0 : Int) (ho : -2 ≤ o0) (es : List REv)
+    (hg : GoodRun cfg log { offset := o0 } es) (hr : (rrun cfg { offset := o0 } es).phase = .reading) :
+    let s := rrun cfg { offset := o0 } es
+    s.offset ≤ s.connOff ∧ (∀ r ∈ s.msgs, r.1 < s.offset) ∧ (∀ r ∈ log, s.offset ≤ r.1 → r.1 < s.connOff → False) := by
+  have h := rinv_run cfg log es _ (rinv_init log o0 ho) hg
+  obtain ⟨hst, h1, h2⟩ := h.conn hr
+  refine ⟨h1, ?_, h2⟩
+  intro r hr'
+  cases hs : (rrun cfg { offset := o0 } es).start with
+  | none => exact absurd hs hst
+  | some st => exact ((h.bounds st hs).2.2.1 r hr').2.2
+
+/-- a successful `initialize` positions the new connection exactly at `offset` (after clamping to the first offset) -/
+theorem initialize_seeks_offset (cfg : RCfg) (s : RR) (first last : Int) (hp : s.phase = .top)
+    (hs : s.attempt = 0 ∨ s.slept = true) (hle : resolve s.offset first last ≤ last) :
+    (rstep cfg s (.initOk first last)).phase = .reading ∧
+    (rstep cfg s (.initOk first last)).connOff = resolve s.offset first last ∧
+    (rstep cfg s (.initOk first last)).offset = resolve s.offset first last := by
+  have hgt : ¬ resolve s.offset first last > last := by omega
+  rcases hs with h | h <;> simp [rstep, hp, h, hgt]
+
+/-- totality: every event is accepted in every state (`rstep` is a function), and a stopped loop stays stopped -/
+theorem reader_loop_stopped (cfg : RCfg) (s : RR) (hp : s.phase = .stopped) (es : List REv) : rrun cfg s es = s := by
+  induction es with
+  | nil => rfl
+  | cons e es ih => simp [rrun, rstep, hp, ih]
+
+/-- the hypotheses are met by a run with a lost connection and a re-initialisation -/
+example : GoodRun {} [(3, 1), (4, 2), (7, 3)] { offset := -1 }
+    [.initOk 3 8, .sleepOk, .data [(3, 1)] 4 .eof, .sleepOk, .cutAfter [(4, 2)], .sleepOk, .initOk 3 8, .sleepOk,
+     .data [(7, 3)] 8 .timedOut] ∧
+    (rrun {} { offset := -1 }
+    [.initOk 3 8, .sleepOk, .data [(3, 1)] 4 .eof, .sleepOk, .cutAfter [(4, 2)], .sleepOk, .initOk 3 8, .sleepOk,
+     .data [(7, 3)] 8 .timedOut]).msgs = [(3, 1), (4, 2), (7, 3)] := by
+  refine ⟨?_, by decide⟩
+  simp only [GoodRun, Good, rstep, toTop, again, pushMsgs, resolve, and_true, true_and]
+  refine ⟨by simp, ⟨⟨by simp, by simp, ?_, by simp⟩, by simp⟩, ⟨by simp, by simp, ?_⟩, by simp, ⟨by simp, by simp, ?_, by simp⟩, by simp⟩
+  · intro r hr; simp at hr ⊢; rcases hr with rfl | rfl | rfl <;> simp
+  · intro r hr x hx; simp at hr hx ⊢; subst hx; rcases hr with rfl | rfl | rfl <;> simp
+  · intro r hr; simp at hr ⊢; rcases hr with rfl | rfl | rfl <;> simp
+
+/-! ### the executable loop model of the oracle (Model/ReaderLoop.lean `onAnswer`) is this LTS
+
+`toRL` forgets the counters; each broker `Answer` is one event of the LTS. -/
+
+def toRL (s : RR) : RL :=
+  { offset := s.offset, connOpen := s.phase == .reading, connOff := s.connOff, out := s.msgs }
+
+theorem onAnswer_data (cfg : RCfg) (s : RR) (hp : s.phase = .reading) (hs : s.slept = true) (hwm first last : Int)
+    (toks : List Tok) (hok : (readAll .fixed false s.connOff hwm toks).2.2 ≠ .desync) :
+    onAnswer .fixed (toRL s) hwm first last (.data toks)
+      = .go (toRL (rstep cfg s (.data (readAll .fixed false s.connOff hwm toks).1 (readAll .fixed false s.connOff hwm toks).2.1
+          (readAll .fixed false s.connOff hwm toks).2.2))) := by
+  simp only [onAnswer, toRL, rstep, hp, hs, Bool.not_true, Bool.false_eq_true, if_false]
+  cases hoc : (readAll .fixed false s.connOff hwm toks).2.2 <;>
+    simp_all [deliver, pushMsgs, again, toTop] <;>
+    (cases hgl : (readAll .fixed false s.connOff hwm toks).1.getLast? <;> rfl)
+
+theorem onAnswer_faults (cfg : RCfg) (s : RR) (hp : s.phase = .reading) (hs : s.slept = true) (hwm first last : Int) :
+    onAnswer .fixed (toRL s) hwm first last (.err 6) = .go (toRL (rstep cfg s (.kerr 6 none))) ∧
+    onAnswer .fixed (toRL s) hwm first last (.err 3) = .go (toRL (rstep cfg s (.kerr 3 none))) ∧
+    onAnswer .fixed (toRL s) hwm first last (.err 7) = .go (toRL (rstep cfg s (.kerr 7 none))) ∧
+    onAnswer .fixed (toRL s) hwm first last .hang = .go (toRL (rstep cfg s .ioErr)) ∧
+    (s.offset < first →
+      onAnswer .fixed (toRL s) hwm first last (.err 1) = .go (toRL (rstep cfg s (.kerr 1 (some (first, last)))))) := by
+  refine ⟨?_, ?_, ?_, ?_, ?_⟩ <;>
+    simp [onAnswer, toRL, rstep, onKerr, hp, hs, toTop, again] <;> intro h <;> simp [h]
 
 /-! ## 4. The Reader's front (FetchMessage / SetOffset / version tags) -/
 
